@@ -10,7 +10,7 @@ R = Runner('C03', 'bounded: frames <= 16 x 48, realistic and awkward resolutions
            'quick 60 / thorough 600 round trips')
 rng = R.rng
 ROUTES = ['synthetic', 'loaded-fil', 'loaded-h5', 'copy', 'copy-of-loaded', 'slice', 'slice-of-loaded', 'dedrift', 'dedrift-of-loaded', 'after-get_waterfall', 'slice-after-get_waterfall',
-          'saved-before', 'slice-of-slice-of-loaded']
+          'saved-before', 'slice-of-slice-of-loaded', 'loaded-time-selection', 'loaded-frequency-selection', 'slice-of-time-selection']
 k = 0
 for it in range(R.n(60, 600)):
     nch = rng.choice([16, 32, 48])
@@ -57,6 +57,15 @@ for it in range(R.n(60, 600)):
         if route == 'slice-after-get_waterfall':
             base.get_waterfall()
             return base.get_slice(2, 2 + nch // 2)
+        if route in ('loaded-time-selection', 'slice-of-time-selection'):
+            base.save_fil(p0)
+            a = rng.randint(1, max(1, T // 2 - 1))
+            fsel = stg.Frame(waterfall=Waterfall(p0, t_start=a, t_stop=T))
+            return fsel if route == 'loaded-time-selection' else fsel.get_slice(1, nch // 2)
+        if route == 'loaded-frequency-selection':
+            base.save_fil(p0)
+            lo, hi = sorted([base.fs[nch // 4], base.fs[nch // 4 + nch // 2]])
+            return stg.Frame(p0, f_start=lo * 1e-6, f_stop=hi * 1e-6)
         if route == 'saved-before':
             base.save_fil(p0)
             base.data[:] = base.data[:, ::-1].copy()
